@@ -102,12 +102,13 @@ type BlockResult struct {
 
 // Chain is one simulated teleport node.
 type Chain struct {
-	Cfg     Config
-	DB      dbm.DB
-	App     *app.Teleport
-	Enc     client.TxConfig
-	ValSet  *tmtypes.ValidatorSet
-	ValKeys map[string]ed25519.PrivKey // by validator address (hex)
+	NextEvidence []abci.Evidence // misbehaviour reported in the next BeginBlock (recorded in the block stream)
+	Cfg          Config
+	DB           dbm.DB
+	App          *app.Teleport
+	Enc          client.TxConfig
+	ValSet       *tmtypes.ValidatorSet
+	ValKeys      map[string]ed25519.PrivKey // by validator address (hex)
 
 	Height   int64     // last committed height
 	LastTime time.Time // time of last committed block
@@ -341,7 +342,8 @@ func (c *Chain) BeginBlock(t time.Time) {
 		NextValidatorsHash: c.ValSet.Hash(),
 		ProposerAddress:    c.ValSet.Validators[0].Address,
 	}
-	req := abci.RequestBeginBlock{Header: hdr}
+	req := abci.RequestBeginBlock{Header: hdr, ByzantineValidators: c.NextEvidence}
+	c.NextEvidence = nil
 	if h > c.InitialH {
 		req.LastCommitInfo = c.lastCommitInfo()
 	}
@@ -533,3 +535,10 @@ func SignTMHeader(tmHeader tmtypes.Header, vals *tmtypes.ValidatorSet, keys map[
 
 // RandPerm is a deterministic permutation helper.
 func RandPerm(rng *rand.Rand, n int) []int { return rng.Perm(n) }
+
+// DuplicateVoteEvidence builds the ABCI evidence that validator i double-signed at the last committed height.
+func (c *Chain) DuplicateVoteEvidence(i int) abci.Evidence {
+	v := c.ValSet.Validators[i%len(c.ValSet.Validators)]
+	return abci.Evidence{Type: abci.EvidenceType_DUPLICATE_VOTE, Validator: abci.Validator{Address: v.Address, Power: v.VotingPower},
+		Height: c.Height, Time: c.HdrTime[c.Height], TotalVotingPower: c.ValSet.TotalVotingPower()}
+}
